@@ -387,3 +387,43 @@ def file_read(I, a, n):
         buf.items.extend(chunk)
     f.fs.log.append(("read", f.path))
     return OK(len(chunk))
+
+
+class RMeta:
+    """std::fs::Metadata of a node at the time of the call"""
+    type_name = "Metadata"
+
+    def __init__(self, length, is_dir, mtime):
+        self.length, self.is_dir, self.mtime = length, is_dir, mtime
+
+    def clone(self, I):
+        return RMeta(self.length, self.is_dir, self.mtime)
+
+
+@model(r"^std::fs::metadata$|^std::fs::symlink_metadata$|^std::path::Path::metadata$|^std::path::Path::symlink_metadata$|^std::fs::File::metadata$")
+def fs_metadata(I, a, n):
+    fs = fs_of(I)
+    f = deref(a[0])
+    p = f.path if isinstance(f, RFile) else pkey(I, a[0])
+    node = fs.nodes.get(p)
+    fs.log.append(("stat", p))
+    if node is None and p in fs.symbolic_files and I.branch_bool(fs.symbolic_files[p]):
+        return OK(RMeta(len(fs.symbolic_content.get(p, [])), False, ("old", p)))
+    if node is None or p in fs.fail:
+        return ERR(io_err("No such file or directory"))
+    return OK(RMeta(len(node.data), node.is_dir, node.mtime))
+
+
+@model(r"^std::fs::Metadata::(len|is_file|is_dir|is_symlink|modified)$")
+def fs_metadata_get(I, a, n):
+    m = deref(a[0])
+    op = meth(n)
+    if op == "len":
+        return m.length
+    if op == "is_dir":
+        return m.is_dir
+    if op == "is_file":
+        return not m.is_dir
+    if op == "is_symlink":
+        return False
+    return OK(Opaque("SystemTime", m.mtime))
